@@ -22,13 +22,14 @@ IsNoneN(n) == n.k = "none"
 
 \* context: vars (name -> type) visible here, globals (names of true globals), funcs (name -> [params, results]),
 \* scopes (sequence of "func" | "if" | "for" | "switch" from the outside in), results (of the enclosing function)
-EmptyCtx == [vars |-> <<>>, globals |-> {}, funcs |-> <<>>, scopes |-> <<>>, results |-> <<>>]
+\* here (names defined in the innermost block so far)
+EmptyCtx == [vars |-> <<>>, globals |-> {}, funcs |-> <<>>, scopes |-> <<>>, results |-> <<>>, here |-> {}]
 InScope(ctx, s) == \E i \in 1..Len(ctx.scopes) : ctx.scopes[i] = s
 TopLevel(ctx) == ctx.scopes = <<>>
 Visible(ctx, name) == name \in DOMAIN ctx.vars
-Bind(ctx, name, ty) == [ctx EXCEPT !.vars = (name :> ty) @@ @,
+Bind(ctx, name, ty) == [ctx EXCEPT !.vars = (name :> ty) @@ @, !.here = @ \cup {name},
                                    !.globals = IF TopLevel(ctx) THEN @ \cup {name} ELSE @]
-Enter(ctx, s) == [ctx EXCEPT !.scopes = Append(@, s)]
+Enter(ctx, s) == [ctx EXCEPT !.scopes = Append(@, s), !.here = {}]
 
 RECURSIVE TypeOf(_, _), TypesOf(_, _, _), FirstErr(_, _)
 FirstErr(ts, i) == IF i > Len(ts) THEN "" ELSE IF IsErr(ts[i]) THEN ts[i] ELSE FirstErr(ts, i + 1)
@@ -142,6 +143,9 @@ CheckDefine(s, ctx) ==
           ELSE IF new = {} /\ shadow # {} /\ Len(names) > 1 THEN R("?short-definition-of-globals-only-in-a-function", ctx)
           \* TshDyn keeps one frame per activation, not per block: a global shadowed only inside a nested block is outside what it can state
           ELSE IF new # {} /\ shadow # {} /\ ctx.scopes # <<"func">> THEN R("?global-shadowed-in-a-nested-block", ctx)
+          \* x, y := ... where x was defined in an ENCLOSING block: Go declares a new x for the rest of the inner block, the tree assigns the outer x;
+          \* "no shadowing" (DESIGN.md 6.1) says neither, so the case is not compared
+          ELSE IF s.form = "short" /\ \E i \in 1..Len(names) : i \notin new /\ i \notin shadow /\ names[i] \notin ctx.here THEN R("?partial-redefinition-of-a-name-from-an-enclosing-block", ctx)
           ELSE IF new = {} THEN R("!no-new-variable", ctx)
           ELSE IF Len(names) = 1 /\ Cardinality(new) = 0 THEN R("!redefinition", ctx)
           ELSE IF s.ty # "" /\ \E i \in 1..Len(ts) : ts[i] # Norm(s.ty) THEN R("!definition-type", ctx)
@@ -161,7 +165,7 @@ CheckFunc(s, ctx) ==
   ELSE IF s.name \in DOMAIN ctx.funcs THEN R("!function-redefined", ctx)
   ELSE LET pn == [i \in 1..Len(s.params) |-> s.params[i].name]
            \* a function body sees the globals defined before it, never block-local or later names
-           gctx == [ctx EXCEPT !.vars = [n \in ctx.globals |-> ctx.vars[n]], !.scopes = <<"func">>, !.results = FuncSig(s).results]
+           gctx == [ctx EXCEPT !.vars = [n \in ctx.globals |-> ctx.vars[n]], !.scopes = <<"func">>, !.results = FuncSig(s).results, !.here = {}]
        IN IF ~Distinct(pn) THEN R("!parameter-redefined", ctx)
           ELSE IF \E i \in 1..Len(pn) : pn[i] \in ctx.globals THEN R("!parameter-redefines-global", ctx)
           ELSE LET bctx == BindAll(gctx, pn, FuncSig(s).params, 1)
@@ -207,14 +211,14 @@ CheckStmt(s, ctx) ==
                            c == IF IsNoneN(s.cond) THEN "" ELSE Expect(s.cond, r0.ctx, "bool", "condition-type")
                            p == IF IsNoneN(s.post) THEN "" ELSE CheckStmt(s.post, r0.ctx).err
                        IN IF r0.err # "" THEN R(r0.err, ctx) ELSE IF c # "" THEN R(c, ctx) ELSE IF p # "" THEN R(p, ctx)
-                          ELSE LET b == CheckBlock(s.body, r0.ctx, 1) IN IF b # "" THEN R(b, ctx) ELSE Ok(ctx))
+                          ELSE LET b == CheckBlock(s.body, [r0.ctx EXCEPT !.here = {}], 1) IN IF b # "" THEN R(b, ctx) ELSE Ok(ctx))
     [] s.k = "range" -> (LET x == Opnd(s.x, ctx) IN
                          IF Visible(ctx, s.i) \/ (s.v # "" /\ (Visible(ctx, s.v) \/ s.v = s.i)) THEN R("!redefinition", ctx)
                          ELSE IF IsErr(x) THEN R(x, ctx)
                          ELSE IF ~(x = "string" \/ IsSlice(x)) THEN R("!range-over-non-sequence", ctx)
                          ELSE LET c1 == Bind(Enter(ctx, "for"), s.i, "int")
                                   c2 == IF s.v = "" THEN c1 ELSE Bind(c1, s.v, IF x = "string" THEN "string" ELSE Elem(x))
-                                  b == CheckBlock(s.body, c2, 1)
+                                  b == CheckBlock(s.body, [c2 EXCEPT !.here = {}], 1)
                               IN IF b # "" THEN R(b, ctx) ELSE Ok(ctx))
     \* C07: break outside a loop is rejected - a switch alone is not a loop (break in a switch inside a loop is accepted, its meaning unspecified)
     [] s.k = "break" -> (IF InScope(ctx, "for") THEN Ok(ctx) ELSE R("!break-outside-loop", ctx))
